@@ -60,19 +60,107 @@ def _run_one(args):
         ]
 
 
-def run_pool(modname, fname, specs, workers=None, chunk=1):
+def _worker_main(conn, modname, fname):
+    import signal
+
+    signal.signal(signal.SIGINT, signal.SIG_IGN)
+    while True:
+        try:
+            msg = conn.recv()
+        except EOFError:
+            return
+        if msg is None:
+            return
+        i, spec = msg
+        res = _run_one((modname, fname, spec))
+        try:
+            conn.send((i, res))
+        except Exception as ex:  # unpicklable payload
+            conn.send((i, [outcome(_spec_name(spec), "error", detail=f"send failed: {ex}")]))
+
+
+def run_pool(modname, fname, specs, workers=None, task_timeout=None):
+    """Run obligations in worker processes.  Each task has a wall-clock limit
+    (spec['task_timeout'] or task_timeout, default 300 s); an overrunning or dying
+    worker is killed/replaced and its obligation reported inconclusive."""
+    from multiprocessing.connection import wait
+
     workers = workers or int(os.environ.get("VERIF_WORKERS", "16"))
-    jobs = [(modname, fname, s) for s in specs]
-    out = []
-    if workers <= 1 or len(jobs) <= 1:
-        for j in jobs:
-            out.extend(_run_one(j))
+    default_to = task_timeout or float(os.environ.get("VERIF_TASK_TIMEOUT", "300"))
+    specs = list(specs)
+    if workers <= 1 or len(specs) <= 1:
+        out = []
+        for s in specs:
+            out.extend(_run_one((modname, fname, s)))
         return out
     ctx = mp.get_context("fork")
-    with ctx.Pool(min(workers, len(jobs))) as pool:
-        for res in pool.imap_unordered(_run_one, jobs, chunksize=chunk):
-            out.extend(res)
+    pending = list(enumerate(specs))[::-1]
+    out = []
+    slots = []
+
+    def spawn():
+        pc, cc = ctx.Pipe()
+        p = ctx.Process(target=_worker_main, args=(cc, modname, fname), daemon=True)
+        p.start()
+        cc.close()
+        return {"proc": p, "conn": pc, "task": None, "t0": 0.0}
+
+    def give(slot):
+        if pending:
+            i, spec = pending.pop()
+            slot["task"] = (i, spec)
+            slot["t0"] = time.time()
+            slot["conn"].send((i, spec))
+        else:
+            slot["task"] = None
+
+    for _ in range(min(workers, len(specs))):
+        sl = spawn()
+        slots.append(sl)
+        give(sl)
+    while any(sl["task"] is not None for sl in slots):
+        busy = [sl for sl in slots if sl["task"] is not None]
+        ready = wait([sl["conn"] for sl in busy], timeout=1.0)
+        now = time.time()
+        for sl in busy:
+            i, spec = sl["task"]
+            lim = spec.get("task_timeout", default_to) if isinstance(spec, dict) else default_to
+            if sl["conn"] in ready:
+                try:
+                    _, res = sl["conn"].recv()
+                    out.extend(res)
+                    give(sl)
+                    continue
+                except (EOFError, OSError):
+                    out.append(outcome(_spec_name(spec), "error", detail="worker died"))
+            elif now - sl["t0"] > lim:
+                out.append(outcome(_spec_name(spec), "inconclusive",
+                                   detail=f"obligation exceeded its wall-clock limit of {lim}s"))
+            elif not sl["proc"].is_alive():
+                out.append(outcome(_spec_name(spec), "error", detail="worker died"))
+            else:
+                continue
+            try:
+                sl["proc"].kill()
+                sl["proc"].join(5)
+                sl["conn"].close()
+            except Exception:
+                pass
+            sl.update(spawn())
+            give(sl)
+    for sl in slots:
+        try:
+            sl["conn"].send(None)
+            sl["proc"].join(2)
+            if sl["proc"].is_alive():
+                sl["proc"].kill()
+        except Exception:
+            pass
     return out
+
+
+def _spec_name(spec):
+    return str(spec.get("name", spec)) if isinstance(spec, dict) else str(spec)
 
 
 def load_known(prop):
@@ -115,7 +203,7 @@ def finish(prop, tier, level, results, t0, *, functions, bounds, assumptions, ru
         print(f"  obligation {r['name']}: {r.get('detail', '')}"[:600])
         rc = 1
     if incon or twins_bad:
-        for r in (incon + twins_bad)[:20]:
+        for r in (incon + twins_bad)[: (10**6 if os.environ.get("VERIF_VERBOSE") else 20)]:
             print(f"INCONCLUSIVE property={prop} obligation={r['name']} status={r['status']} "
                   f"{str(r.get('detail', ''))[:300]}")
             if r.get("trace"):
